@@ -451,11 +451,43 @@ def run_impl(script, payload, timeout=1800):
             pass
 
 
+class ImplCrash(Exception):
+    """The implementation-side runner died on one identifiable case (found by re-running the cases of the failing payload one by one)."""
+    def __init__(self, script, case, log):
+        Exception.__init__(self, "impl runner %s raised on a case" % script)
+        self.script = script
+        self.case = case
+        self.log = log
+
+
+def _locate_crash(script, payload, timeout, err):
+    cases = payload.get("cases") if isinstance(payload, dict) else None
+    if not isinstance(cases, list) or not cases:
+        raise err
+    for c in cases:
+        try:
+            run_impl(script, dict(payload, cases=[c]), timeout)
+        except RuntimeError as ex:
+            raise ImplCrash(script, c, str(ex)[-1500:])
+    raise err          # not reproducible case by case (state carried across cases): report as a broken run
+
+
 def run_impl_parallel(script, payloads, timeout=1800, jobs=NCPU):
-    """Run several payloads (list) in parallel interpreters; returns list of results."""
+    """Run several payloads (list) in parallel interpreters; returns list of results.
+    When a runner dies, its cases are re-run one at a time to name the input it dies on (ImplCrash)."""
     from concurrent.futures import ThreadPoolExecutor
+
+    def one(pl):
+        try:
+            return run_impl(script, pl, timeout)
+        except RuntimeError as ex:
+            return ex
     with ThreadPoolExecutor(max_workers=jobs) as ex:
-        return list(ex.map(lambda pl: run_impl(script, pl, timeout), payloads))
+        res = list(ex.map(one, payloads))
+    for pl, r in zip(payloads, res):
+        if isinstance(r, RuntimeError):
+            _locate_crash(script, pl, timeout, r)
+    return res
 
 
 def chunks(lst, n):
